@@ -505,10 +505,20 @@ def _objdot(A, B):
     return np.dot(A, B)
 
 
+def _empty_shape(arg):
+    """csr_array((n, m)): an empty matrix of that shape"""
+    return isinstance(arg, tuple) and len(arg) == 2 and all(isinstance(x, (int, np.integer)) for x in arg)
+
+
 class DCsr(DenseBacked):
     format = "csr"
 
     def __init__(self, arg, shape=None, dtype=None):
+        if _empty_shape(arg):
+            M = np.zeros((int(arg[0]), int(arg[1])), dtype=object)
+            M[...] = 0.0
+            DenseBacked.__init__(self, M)
+            return
         DenseBacked.__init__(self, _dense_from(arg, shape, dtype))
 
 
@@ -529,6 +539,21 @@ class DCoo(DenseBacked):
 def _dense_from(arg, shape, dtype):
     if isinstance(arg, tuple) and len(arg) == 2 and isinstance(arg[1], tuple):
         data, (row, col) = arg
+        rl, cl = list(np.asarray(_strip(row), dtype=object).reshape(-1)), list(np.asarray(_strip(col), dtype=object).reshape(-1))
+        if any(isinstance(x, SR) for x in rl + cl):
+            # symbolic cell indices (assumed in range by the harness): entry (a, b) is the sum of the data whose indices equal (a, b)
+            if shape is None:
+                raise Unsupported("sparse model: symbolic indices need an explicit shape")
+            data = list(data) if not isinstance(data, (int, float)) else [data] * len(rl)
+            if not (len(data) == len(rl) == len(cl)):
+                raise ValueError("row, column, and data array must all be the same length")
+            M = np.zeros(shape, dtype=object)
+            M[...] = 0.0
+            for a in range(shape[0]):
+                for b in range(shape[1]):
+                    terms = [z3.If(z3.And(rv(i) == a, rv(j) == b), rv(_tofloat(_cast(v, dtype))), z3.RealVal(0)) for v, i, j in zip(data, rl, cl)]
+                    M[a, b] = SR(z3.Sum(terms)) if terms else 0.0
+            return M
         row = np.array(_strip(row), dtype=int).reshape(-1)
         col = np.array(_strip(col), dtype=int).reshape(-1)
         data = list(data)
